@@ -22,6 +22,9 @@ CHECKS = {
  "C13": dict(cat="model_checking", engine="C", technique=ENGINE_C,
    text="Same engine and automaton as C12 with clone()/close() on up to 2+2 handles (also closing handles that have blocked peers or blocked users): EndOfStream / BrokenResourceError / ClosedResourceError must be exactly those the reference predicts, closing the last clone must wake every blocked peer, open-stream counts must match.",
    note="Trusted: VLoop batching model; depth-capped BFS (cap reported)."),
+ "C20": dict(cat="model_checking", engine="C", technique=ENGINE_C + "; plus bounded-exhaustive differential enumeration of sequential call histories against functools.lru_cache",
+   text="Reachable quiescent states of the real lru_cache wrapper (maxsize None/1/2, ttl, 2-3 keys, up to 3 callers with invocations held in flight by gates) under call / complete / fail / cancel / clock events and all in-cycle event pairs; oracle: right value, single flight, no foreign exception, no stale or expired hit, nobody blocked without an equal-key invocation in flight, currsize and probed retention <= maxsize; and every sequential call sequence up to length 5-7 over 2-4 keys (typed on/off, failing key) must hit/miss exactly like functools.lru_cache.",
+   note="Trusted: VLoop batching model; functools.lru_cache as sequential reference (mixed int/float keys only compared with typed=True because of a CPython fast-path quirk); BFS depth-capped where stated."),
 }
 
 def main():
